@@ -480,6 +480,18 @@ def classify_guard(test, inl, sources):
                 if m1 and m2 and m1.group(1) == m2.group(1):
                     src = sources(ast.Name(id=m1.group(1), ctx=ast.Load()))
                     return "duplicates", "t" in src, f"duplicate test on {m1.group(1)} (depends on {sorted(src)})"
+    # --- duplicates by comparing neighbours: any(a == b for a, b in zip(X, X[1:]))  — valid only if X is sorted
+    if isinstance(t, ast.Call) and A.call_name(t) == "any" and len(t.args) == 1 and isinstance(t.args[0], (ast.GeneratorExp, ast.ListComp)):
+        g = t.args[0]
+        if len(g.generators) == 1 and isinstance(g.generators[0].iter, ast.Call) and A.call_name(g.generators[0].iter) == "zip" \
+                and len(g.generators[0].iter.args) == 2:
+            x0, x1 = g.generators[0].iter.args
+            c2 = _cmp_norm(g.elt)
+            if isinstance(x1, ast.Subscript) and A.text(x1.value) == A.text(x0) and c2 is not None and c2[1] == "==" \
+                    and "t" in sources(x0):
+                is_sorted = "sorted(" in A.text(inl.expand(x0))
+                return "duplicates", is_sorted, (f"neighbour comparison on `{A.text(x0)}` which is "
+                                                 f"{'sorted' if is_sorted else 'NOT sorted at this point: non-adjacent repetitions pass'}")
     # --- not all(...)
     neg = False
     u = t
@@ -712,6 +724,30 @@ def check_leg(chk):
                 chk.bad("G7", (f, c), c, "frozen Leg field written outside __post_init__")
 
 
+def check_fuse_purity(chk, syms, base):
+    """G8: fuse/zero/add_charges do not write their arguments and never return (a view of) them written in place."""
+    from ..core.alias import Engine, is_shared_param
+    chk.rule("G8", "fuse()/add_charges() never write into their arguments (charges arrays are caller-owned)", floor=7)
+    mods = sorted({c.module.name for c in syms} | {base.module.name})
+    eng = Engine(chk.prog, mods, backends=()).run()
+    for ci in list(syms) + [base]:
+        for nm in ("fuse", "add_charges", "zero"):
+            f = ci.methods.get(nm)
+            if f is None or f.cls is not ci:
+                continue
+            s = eng.summary(f)
+            bad = {pi: p for pi, p in s.mut.items() if p}
+            if bad:
+                fa = eng.analysis(f)
+                for pi in bad:
+                    ev = next((e for e in fa.events if any(is_shared_param(o) and o[0][1] == pi for o in e.targets)), None)
+                    chk.bad("G8", (f, ev.node if ev else f.node), ev.text if ev else f"{ci.name}.{nm}",
+                            f"{ci.name}.{nm}() writes into its argument `{f.params[pi]}` ({ev.kind if ev else ''}): the caller's "
+                            f"charge array is changed, e.g. Leg validation then compares the already-reduced charges")
+            else:
+                chk.ok("G8", f, f"{ci.name}.{nm}", sample=False)
+
+
 def run(chk):
     chk.explanation = (
         "Static normal-form analysis (no execution): the body of every shipped symmetry's fuse() is abstractly "
@@ -728,9 +764,10 @@ def run(chk):
                        "charges are integer arrays (Leg guard t-int; tensor layer passes int64 arrays)"]
     base, syms = shipped_symmetries(chk)
     chk.require(len(syms) >= 7, f"only {len(syms)} shipped symmetry classes found (7 confirmed by hand)")
-    check_fuse(chk, base, syms)
-    check_wrapper(chk, base)
+    check_fuse_purity(chk, syms, base)
     check_leg(chk)
+    check_wrapper(chk, base)
+    check_fuse(chk, base, syms)
     chk.extra["symmetries"] = [c.name for c in syms]
 
 
